@@ -1,16 +1,21 @@
 (* Characterising lemmas of the dependency primitives and shared helpers of Ledger/Env.v
-   (and add_nft_to_destination / check_payable of Ledger/Transfers.v).
+   (and add_nft_to_destination / check_payable of Ledger/Transfers.v).  Foundation of the ledger proofs.
 
-   Vocabulary (all relations between a pre-state s and a post-state s'):
-     clean E s s'       the dependency calls made between s and s' (indices calls s .. calls s' - 1)
-                        contain no planned fault, and calls s <= calls s'                     (C17)
-     rd E s s'          "read only": accts and allocs equal, clean
-     wr E a k v s s'    exactly one storage cell was written: accts s' = aput (accts s) a (acct s a with k := v),
-                        allocs equal, clean
-   Every lemma [foo_ok] inverts [foo ... s = (Ok x, s')]; [foo_succeeds] is the converse (liveness)
-   direction, under [no_faults E] where a dependency is called.
-   The Ltac [pinv] inverts primitives, [einv] inverts primitives and helpers (needs [codec_ok (cdc E)]
-   in the context for the helpers that decode). *)
+   Vocabulary (relations between a pre-state s and a post-state s'):
+     nofault E s s'     calls s <= calls s', and none of the dependency calls made between s and s'
+                        (indices calls s .. calls s' - 1) is planned to fail
+     rd E s s'          "read only": accts s' = accts s, allocs s' = allocs s, nofault E s s'
+     wr E a k v s s'    exactly one storage cell was written:
+                        accts s' = aput (accts s) a (acct s a with store cell k := v), allocs equal, nofault
+     tok_or_default E s a k   the entry as the Go code reads it (absent = default_tok, else dec_tok of the cell)
+     val_or_0 t               value of a token, 0 if nil
+   Naming: [foo_ok] inverts [foo ... s = (Ok x, s')]; [foo_succeeds] is the converse (liveness) direction
+   (under [no_faults E] or [plan E (calls s) = false] where a dependency is called); [foo_eq] computes a
+   helper that cannot fail.  Lemmas take [codec_ok (cdc E)] only when their proof needs it.
+   Sections: 1 pure facts (u64 arithmetic, keys, gas helpers, role lists)   2 nofault/rd/wr + primitives (+ Ltac pinv)
+             3 helpers   4 Ltac einv   5 frames (unchanged_except -> observables), sums over accounts
+             6 mono (call counter monotone for every result; Ltac mono_tac, hint db mono)
+             7 panic freedom (panicfree / nopanic; Ltac panicfree_tac, hint db panicfree). *)
 From EV Require Import Base.Bytes Base.Store Base.Monad gen.Consts Codec.Types Helpers.Helpers
   Ledger.Types Ledger.Env Ledger.Funcs Ledger.Transfers LedgerProofs.Defs.
 
@@ -287,27 +292,27 @@ Proof.
 Qed.
 
 (* ================================================================== *)
-(* 2. clean / rd / wr and the primitives                               *)
+(* 2. nofault / rd / wr and the primitives                               *)
 (* ================================================================== *)
 Section Prim.
   Variable E : env.
 
-  Definition clean (s s' : mstate) : Prop :=
+  Definition nofault (s s' : mstate) : Prop :=
     calls s <= calls s' /\ forall n, calls s <= n < calls s' -> plan E n = false.
-  Lemma clean_refl s : clean s s.
+  Lemma nofault_refl s : nofault s s.
   Proof. split; [lia|intros; lia]. Qed.
-  Lemma clean_trans a b c : clean a b -> clean b c -> clean a c.
+  Lemma nofault_trans a b c : nofault a b -> nofault b c -> nofault a c.
   Proof.
     intros [H1 H2] [H3 H4]. split; [lia|]. intros n Hn.
     destruct (Nat.lt_ge_cases n (calls b)); [apply H2|apply H4]; lia.
   Qed.
-  Lemma clean_dep s s' : plan E (calls s) = false -> calls s' = S (calls s) -> clean s s'.
+  Lemma nofault_dep s s' : plan E (calls s) = false -> calls s' = S (calls s) -> nofault s s'.
   Proof. intros Hp Hc. split; [lia|]. intros n Hn. assert (n = calls s) by lia. subst. exact Hp. Qed.
-  Lemma clean_eqcalls s s' : calls s' = calls s -> clean s s'.
+  Lemma nofault_eqcalls s s' : calls s' = calls s -> nofault s s'.
   Proof. intros H. split; [lia|intros; lia]. Qed.
-  Lemma clean_le s s' : clean s s' -> calls s <= calls s'.
+  Lemma nofault_le s s' : nofault s s' -> calls s <= calls s'.
   Proof. intros [H _]. exact H. Qed.
-  Lemma clean_no_fault s s' n : clean s s' -> calls s <= n < calls s' -> plan E n = false.
+  Lemma nofault_no_fault s s' n : nofault s s' -> calls s <= n < calls s' -> plan E n = false.
   Proof. intros [_ H]. apply H. Qed.
 
   (* observables only depend on [accts] *)
@@ -339,15 +344,15 @@ Section Prim.
   Qed.
 
   (* ---- rd ---- *)
-  Definition rd (s s' : mstate) : Prop := accts s' = accts s /\ allocs s' = allocs s /\ clean s s'.
+  Definition rd (s s' : mstate) : Prop := accts s' = accts s /\ allocs s' = allocs s /\ nofault s s'.
   Lemma rd_refl s : rd s s.
-  Proof. split; [reflexivity|split; [reflexivity|apply clean_refl]]. Qed.
+  Proof. split; [reflexivity|split; [reflexivity|apply nofault_refl]]. Qed.
   Lemma rd_trans a b c : rd a b -> rd b c -> rd a c.
-  Proof. intros (H1&H2&H3) (H4&H5&H6). split; [congruence|split; [congruence|eapply clean_trans; eauto]]. Qed.
+  Proof. intros (H1&H2&H3) (H4&H5&H6). split; [congruence|split; [congruence|eapply nofault_trans; eauto]]. Qed.
   Lemma rd_accts s s' : rd s s' -> accts s' = accts s. Proof. intros (H&_). exact H. Qed.
   Lemma rd_allocs s s' : rd s s' -> allocs s' = allocs s. Proof. intros (_&H&_). exact H. Qed.
-  Lemma rd_clean s s' : rd s s' -> clean s s'. Proof. intros (_&_&H). exact H. Qed.
-  Lemma rd_calls s s' : rd s s' -> calls s <= calls s'. Proof. intros H. apply clean_le, rd_clean, H. Qed.
+  Lemma rd_nofault s s' : rd s s' -> nofault s s'. Proof. intros (_&_&H). exact H. Qed.
+  Lemma rd_calls s s' : rd s s' -> calls s <= calls s'. Proof. intros H. apply nofault_le, rd_nofault, H. Qed.
   Lemma rd_acct s s' a : rd s s' -> acct s' a = acct s a. Proof. intros H. apply acct_accts, rd_accts, H. Qed.
   Lemma rd_cell s s' a k : rd s s' -> cell s' a k = cell s a k. Proof. intros H. apply cell_accts, rd_accts, H. Qed.
   Lemma rd_tok_at s s' a k : rd s s' -> tok_at E s' a k = tok_at E s a k. Proof. intros H. apply tok_at_accts, rd_accts, H. Qed.
@@ -363,22 +368,22 @@ Section Prim.
   (* ---- wr ---- *)
   Definition wr (a k v : bytes) (s s' : mstate) : Prop :=
     accts s' = aput (accts s) a (set_store (acct s a) (sput (a_store (acct s a)) k v))
-    /\ allocs s' = allocs s /\ clean s s'.
+    /\ allocs s' = allocs s /\ nofault s s'.
   Lemma wr_accts a k v s s' : wr a k v s s' ->
     accts s' = aput (accts s) a (set_store (acct s a) (sput (a_store (acct s a)) k v)).
   Proof. intros (H&_). exact H. Qed.
   Lemma wr_allocs a k v s s' : wr a k v s s' -> allocs s' = allocs s. Proof. intros (_&H&_). exact H. Qed.
-  Lemma wr_clean a k v s s' : wr a k v s s' -> clean s s'. Proof. intros (_&_&H). exact H. Qed.
-  Lemma wr_calls a k v s s' : wr a k v s s' -> calls s <= calls s'. Proof. intros H. eapply clean_le, wr_clean, H. Qed.
+  Lemma wr_nofault a k v s s' : wr a k v s s' -> nofault s s'. Proof. intros (_&_&H). exact H. Qed.
+  Lemma wr_calls a k v s s' : wr a k v s s' -> calls s <= calls s'. Proof. intros H. eapply nofault_le, wr_nofault, H. Qed.
   Lemma rd_wr a k v s s1 s' : rd s s1 -> wr a k v s1 s' -> wr a k v s s'.
   Proof.
     intros (H1&H2&H3) (H4&H5&H6). unfold wr. rewrite H4. unfold acct. rewrite H1.
-    split; [reflexivity|split; [congruence|eapply clean_trans; eauto]].
+    split; [reflexivity|split; [congruence|eapply nofault_trans; eauto]].
   Qed.
   Lemma wr_rd a k v s s1 s' : wr a k v s s1 -> rd s1 s' -> wr a k v s s'.
   Proof.
     intros (H1&H2&H3) (H4&H5&H6). unfold wr. rewrite H4, H1.
-    split; [reflexivity|split; [congruence|eapply clean_trans; eauto]].
+    split; [reflexivity|split; [congruence|eapply nofault_trans; eauto]].
   Qed.
   Lemma wr_acct_eq a k v s s' : wr a k v s s' ->
     acct s' a = set_store (acct s a) (sput (a_store (acct s a)) k v).
@@ -461,7 +466,7 @@ Section Prim.
     plan E (calls s) = false /\ accts s' = accts s /\ calls s' = S (calls s) /\ allocs s' = allocs s.
   Proof. unfold dep. destruct (plan E (calls s)); intros H; inversion H; auto. Qed.
   Lemma dep_rd s u s' : dep E s = (Ok u, s') -> rd s s'.
-  Proof. intros H. apply dep_ok in H as (Hp&Ha&Hc&Hl). split; [exact Ha|split; [exact Hl|apply clean_dep; auto]]. Qed.
+  Proof. intros H. apply dep_ok in H as (Hp&Ha&Hc&Hl). split; [exact Ha|split; [exact Hl|apply nofault_dep; auto]]. Qed.
   Lemma dep_succeeds s : plan E (calls s) = false ->
     dep E s = (Ok tt, {| accts := accts s; calls := S (calls s); allocs := allocs s |}).
   Proof. unfold dep. intros ->. reflexivity. Qed.
@@ -479,7 +484,7 @@ Section Prim.
     /\ calls s' = calls s /\ allocs s' = allocs s.
   Proof. unfold write_kv. intros H; inversion H; auto. Qed.
   Lemma write_kv_wr a k v s u s' : write_kv a k v s = (Ok u, s') -> wr a k v s s'.
-  Proof. intros H. apply write_kv_ok in H as (H1&H2&H3). split; [exact H1|split; [exact H3|apply clean_eqcalls; exact H2]]. Qed.
+  Proof. intros H. apply write_kv_ok in H as (H1&H2&H3). split; [exact H1|split; [exact H3|apply nofault_eqcalls; exact H2]]. Qed.
   Lemma write_kv_eq a k v s : exists s', write_kv a k v s = (Ok tt, s').
   Proof. eexists. reflexivity. Qed.
   Lemma save_kv_ok a k v s u s' : save_kv E a k v s = (Ok u, s') -> wr a k v s s'.
@@ -555,8 +560,8 @@ Section Prim.
   Lemma upd_acct_acct a f s u s' a' : upd_acct a f s = (Ok u, s') ->
     acct s' a' = if beqb a' a then f (acct s a) else acct s a'.
   Proof. intros H. apply upd_acct_ok in H as (H&_). unfold acct at 1. rewrite H. apply aget_aput. Qed.
-  Lemma upd_acct_clean a f s u s' : upd_acct a f s = (Ok u, s') -> clean s s'.
-  Proof. intros H. apply upd_acct_ok in H as (_&H&_). apply clean_eqcalls. exact H. Qed.
+  Lemma upd_acct_nofault a f s u s' : upd_acct a f s = (Ok u, s') -> nofault s s'.
+  Proof. intros H. apply upd_acct_ok in H as (_&H&_). apply nofault_eqcalls. exact H. Qed.
   Lemma upd_acct_nodup a f s u s' : upd_acct a f s = (Ok u, s') -> NoDup (map fst (accts s)) -> NoDup (map fst (accts s')).
   Proof. intros H Hnd. apply upd_acct_ok in H as (H&_). rewrite H. apply keys_aput. exact Hnd. Qed.
   (* if f keeps the store, only account fields of [a] change *)
@@ -581,8 +586,8 @@ Section Prim.
   Proof. unfold alloc. destruct (1099511627776 <? n)%N eqn:E0; intros H; inversion H. repeat split; auto. lia. Qed.
   Lemma alloc_succeeds n s : (n <= 1099511627776)%N -> exists s', alloc n s = (Ok tt, s').
   Proof. intros H. unfold alloc. destruct (1099511627776 <? n)%N eqn:E0; [lia|]. eexists. reflexivity. Qed.
-  Lemma alloc_clean n s u s' : alloc n s = (Ok u, s') -> clean s s'.
-  Proof. intros H. apply alloc_ok in H as (_&_&H&_). apply clean_eqcalls. exact H. Qed.
+  Lemma alloc_nofault n s u s' : alloc n s = (Ok u, s') -> nofault s s'.
+  Proof. intros H. apply alloc_ok in H as (_&_&H&_). apply nofault_eqcalls. exact H. Qed.
 
   Lemma arg_ok args i s x s' : arg args i s = (Ok x, s') ->
     nth_error args (N.to_nat i) = Some x /\ (i < alen args)%N /\ s' = s.
@@ -862,7 +867,7 @@ Section Helpers.
               else Some (set_value t (Some (balance E s a key + delta)%Z))))
     /\ (rae = false -> a <> SC -> frozen_at E s a key = false /\ paused_at s key = false)
     /\ unchanged_except (fun a' k' => a' = a /\ k' = key) (fun _ => False) s s'
-    /\ clean E s s'.
+    /\ nofault E s s'.
   Proof.
     intros H. apply add_to_esdt_balance_inv in H as (t & v & Ht & Hwf & Hty & Hv & Hge & Hfp & Hw).
     assert (Hb : balance E s a key = v).
@@ -882,7 +887,7 @@ Section Helpers.
     { exists t. split; [exact Ht|]. split; [exact Hwf|]. split; [exact Hty|]. split; [congruence|exact Hta]. }
     split.
     { rewrite (frozen_at_tod _ _ _ _ Ht). exact Hfp. }
-    split; [eapply wr_unchanged; eauto|eapply wr_clean; eauto].
+    split; [eapply wr_unchanged; eauto|eapply wr_nofault; eauto].
   Qed.
   Lemma add_to_esdt_balance_succeeds a key delta rae s t v :
     no_faults E ->
@@ -918,4 +923,695 @@ Section Helpers.
     - rewrite <- (frozen_at_tod _ _ _ _ Ht). exact Hfp.
     - rewrite (balance_tod _ _ _ _ Ht) in Hge. unfold val_or_0 in Hge. rewrite Hv in Hge. exact Hge.
   Qed.
+  (* ---------------- NFT entries ---------------- *)
+  Lemma get_nft_on_destination_ok a key nonce s t isNew s' :
+    get_nft_on_destination E a key nonce s = (Ok (t, isNew), s') ->
+    rd E s s' /\ wf_token t /\ tok_or_default s a (nft_key key nonce) = Some t
+    /\ (if isNew then cell s a (nft_key key nonce) = [] /\ t = default_tok
+        else tok_at E s a (nft_key key nonce) = Some t).
+  Proof.
+    unfold get_nft_on_destination. intros H. apply bind_ok in H as (b & s1 & H1 & H2).
+    apply retrieve_ok in H1 as [-> ->].
+    destruct (cell s a (nft_key key nonce)) as [|b0 br] eqn:Ec.
+    - apply ret_ok in H2 as [H2 ->]. inversion H2; subst.
+      split; [apply rd_refl|]. split; [apply wf_default_tok|]. split; [apply tod_nil; exact Ec|auto].
+    - apply bind_ok in H2 as (t1 & s2 & H2 & H3). apply unmarshal_tok_ok in H2 as [Hd Hr].
+      apply ret_ok in H3 as [H3 ->]. inversion H3; subst t1 isNew.
+      assert (Ht : tok_at E s a (nft_key key nonce) = Some t) by (unfold tok_at; rewrite Ec; exact Hd).
+      split; [exact Hr|]. split; [eapply tok_at_wf; eauto|]. split; [apply tok_at_tod; exact Ht|exact Ht].
+  Qed.
+  Lemma get_nft_on_destination_succeeds a key nonce s t : plan E (calls s) = false ->
+    tok_or_default s a (nft_key key nonce) = Some t ->
+    exists s', get_nft_on_destination E a key nonce s =
+               (Ok (t, match cell s a (nft_key key nonce) with [] => true | _ => false end), s').
+  Proof.
+    intros Hp Ht. unfold get_nft_on_destination. rewrite (bind_eq _ _ _ _ _ (retrieve_eq a _ s)).
+    unfold tok_or_default in Ht. destruct (cell s a (nft_key key nonce)) as [|b0 br].
+    - inversion Ht; subst. eexists. reflexivity.
+    - destruct (unmarshal_tok_succeeds E _ _ s Hp Ht) as (s1 & H1). rewrite (bind_eq _ _ _ _ _ H1).
+      eexists. reflexivity.
+  Qed.
+
+  Lemma get_nft_on_sender_ok a key nonce s t s' :
+    get_nft_on_sender E a key nonce s = (Ok t, s') ->
+    rd E s s' /\ wf_token t /\ tok_at E s a (nft_key key nonce) = Some t
+    /\ ((0 < nonce)%N -> exists m, t_meta t = Some m) /\ (nonce = 0%N -> t_meta t = None).
+  Proof.
+    unfold get_nft_on_sender. intros H. apply bind_ok in H as ([t0 isNew] & s1 & H1 & H2).
+    apply get_nft_on_destination_ok in H1 as (Hr & Hwf & _ & Hcase).
+    apply bind_ok in H2 as (u1 & s2 & H2 & H3). apply guard_ok in H2 as [Hn ->].
+    apply bind_ok in H3 as (u2 & s2 & H3 & H4). apply guard_ok in H3 as [Hm1 ->].
+    apply bind_ok in H4 as (u3 & s2 & H4 & H5). apply guard_ok in H4 as [Hm2 ->].
+    apply ret_ok in H5 as [-> ->].
+    destruct isNew; [discriminate|].
+    split; [exact Hr|]. split; [exact Hwf|]. split; [exact Hcase|].
+    destruct (t_meta t0) as [m|]; split.
+    - intros _. eauto.
+    - intros ->. discriminate.
+    - intros Hpos. destruct (0 <? nonce)%N eqn:E0; [discriminate|lia].
+    - reflexivity.
+  Qed.
+  Lemma get_nft_on_sender_succeeds a key nonce s t : plan E (calls s) = false ->
+    tok_at E s a (nft_key key nonce) = Some t ->
+    ((0 < nonce)%N -> t_meta t <> None) -> (nonce = 0%N -> t_meta t = None) ->
+    exists s', get_nft_on_sender E a key nonce s = (Ok t, s').
+  Proof.
+    intros Hp Ht Hm1 Hm2. unfold get_nft_on_sender.
+    destruct (get_nft_on_destination_succeeds a key nonce s t Hp (tok_at_tod _ _ _ _ Ht)) as (s1 & H1).
+    destruct (tok_at_cell _ _ _ _ Ht) as [Hne _].
+    destruct (cell s a (nft_key key nonce)) as [|b0 br]; [congruence|].
+    rewrite (bind_eq _ _ _ _ _ H1). rewrite (bind_eq _ _ _ _ _ (guard_true _ _ _ eq_refl)).
+    assert (G1 : negb ((0 <? nonce)%N && match t_meta t with None => true | Some _ => false end) = true).
+    { destruct (t_meta t); [rewrite andb_false_r; reflexivity|].
+      destruct (0 <? nonce)%N eqn:E0; [|reflexivity]. exfalso. apply Hm1; [lia|reflexivity]. }
+    assert (G2 : negb ((nonce =? 0)%N && match t_meta t with None => false | Some _ => true end) = true).
+    { destruct (nonce =? 0)%N eqn:E0; [|reflexivity]. rewrite Hm2 by lia. reflexivity. }
+    rewrite (bind_eq _ _ _ _ _ (guard_true _ _ _ G1)). rewrite (bind_eq _ _ _ _ _ (guard_true _ _ _ G2)).
+    eexists. reflexivity.
+  Qed.
+
+  Lemma save_nft_ok a key t rae s b s' :
+    save_nft E a key t rae s = (Ok b, s') ->
+    exists v, t_value t = Some v
+      /\ b = (if (v <=? 0)%Z then [] else enc_tok (cdc E) t)
+      /\ wr E a (nft_key key (tok_nonce t)) b s s'
+      /\ (rae = false -> a <> SC ->
+          frozen_props (t_props t) = false /\ paused_at s key = false /\ paused_at s (nft_key key (tok_nonce t)) = false).
+  Proof.
+    unfold save_nft. intros H. apply bind_ok in H as (u1 & s1 & H1 & H2).
+    apply check_froze_and_pause_ok in H1 as [-> Hfp1]. cbv zeta in H2.
+    apply bind_ok in H2 as (u2 & s1 & H2 & H3). apply check_froze_and_pause_ok in H2 as [-> Hfp2].
+    apply bind_ok in H3 as (v & s1 & H3 & H4). apply val_of_ok in H3 as [Hv ->].
+    exists v. split; [exact Hv|].
+    assert (Hfp : rae = false -> a <> SC ->
+          frozen_props (t_props t) = false /\ paused_at s key = false /\ paused_at s (nft_key key (tok_nonce t)) = false).
+    { intros h1 h2. destruct (Hfp1 h1 h2) as [? ?]. destruct (Hfp2 h1 h2) as [? ?]. auto. }
+    destruct (v <=? 0)%Z.
+    - apply bind_ok in H4 as (u3 & s1 & H4 & H5). apply save_kv_ok in H4. apply ret_ok in H5 as [-> ->]. auto.
+    - apply bind_ok in H4 as (b1 & s1 & H4 & H5). apply marshal_tok_ok in H4 as [-> Hr].
+      apply bind_ok in H5 as (u3 & s2 & H5 & H6). apply save_kv_ok in H5. apply ret_ok in H6 as [-> ->].
+      split; [reflexivity|]. split; [eapply rd_wr; eauto|exact Hfp].
+  Qed.
+  (* observables after save_nft *)
+  Lemma save_nft_tok_at a key t rae s b s' : wf_token t -> save_nft E a key t rae s = (Ok b, s') ->
+    tok_at E s' a (nft_key key (tok_nonce t)) = (if (val_or_0 t <=? 0)%Z then None else Some t).
+  Proof.
+    intros Hwf H. apply save_nft_ok in H as (v & Hv & -> & Hw & _). unfold val_or_0. rewrite Hv.
+    destruct (v <=? 0)%Z; [eapply wr_tok_at_nil|eapply wr_tok_at_enc]; eauto.
+  Qed.
+  Lemma save_nft_balance a key t rae s b s' : wf_token t -> save_nft E a key t rae s = (Ok b, s') ->
+    balance E s' a (nft_key key (tok_nonce t)) = Z.max 0 (val_or_0 t).
+  Proof.
+    intros Hwf H. pose proof (save_nft_tok_at _ _ _ _ _ _ _ Hwf H) as Ht.
+    destruct (val_or_0 t <=? 0)%Z eqn:Ev.
+    - rewrite (balance_tok_at_none _ _ _ Ht). lia.
+    - rewrite (balance_tok_at _ _ _ _ Ht). lia.
+  Qed.
+  Lemma save_nft_succeeds a key t rae s v : no_faults E -> t_value t = Some v ->
+    (rae = false -> a <> SC ->
+       frozen_props (t_props t) = false /\ paused_at s key = false /\ paused_at s (nft_key key (tok_nonce t)) = false) ->
+    exists b s', save_nft E a key t rae s = (Ok b, s').
+  Proof.
+    intros Hnf Hv Hfp. unfold save_nft.
+    rewrite (bind_eq _ _ _ _ _ (check_froze_and_pause_succeeds a key t rae s
+      (fun h1 h2 => conj (proj1 (Hfp h1 h2)) (proj1 (proj2 (Hfp h1 h2)))))). cbv zeta.
+    rewrite (bind_eq _ _ _ _ _ (check_froze_and_pause_succeeds a _ t rae s
+      (fun h1 h2 => conj (proj1 (Hfp h1 h2)) (proj2 (proj2 (Hfp h1 h2)))))).
+    rewrite (bind_eq _ _ _ _ _ (val_of_succeeds _ _ s Hv)).
+    destruct (v <=? 0)%Z.
+    - destruct (save_kv_succeeds E a (nft_key key (tok_nonce t)) [] s (Hnf _)) as (s1 & H1).
+      rewrite (bind_eq _ _ _ _ _ H1). eexists. eexists. reflexivity.
+    - destruct (marshal_tok_succeeds E t s (Hnf _)) as (s1 & H1). rewrite (bind_eq _ _ _ _ _ H1).
+      destruct (save_kv_succeeds E a (nft_key key (tok_nonce t)) (enc_tok (cdc E) t) s1 (Hnf _)) as (s2 & H2).
+      rewrite (bind_eq _ _ _ _ _ H2). eexists. eexists. reflexivity.
+  Qed.
+
+  (* ---------------- NFT-create counter ---------------- *)
+  Lemma get_latest_nonce_eq a tok s : get_latest_nonce a tok s = (Ok (counter_at s a tok), s).
+  Proof.
+    unfold get_latest_nonce. rewrite (bind_eq _ _ _ _ _ (retrieve_eq a _ s)). unfold counter_at.
+    destruct (cell s a (NP ++ tok)); reflexivity.
+  Qed.
+  Lemma get_latest_nonce_ok a tok s n s' : get_latest_nonce a tok s = (Ok n, s') -> n = counter_at s a tok /\ s' = s.
+  Proof. rewrite get_latest_nonce_eq. intros H; inversion H; auto. Qed.
+  Lemma counter_at_lt s a tok : (counter_at s a tok < two64)%N.
+  Proof. unfold counter_at. destruct (cell s a (NP ++ tok)); [reflexivity|apply bigU64_lt]. Qed.
+  Lemma save_latest_nonce_ok a tok n s u s' : save_latest_nonce E a tok n s = (Ok u, s') ->
+    wr E a (NP ++ tok) (u64_bytes n) s s' /\ counter_at s' a tok = u64 n.
+  Proof.
+    unfold save_latest_nonce. intros H. apply save_kv_ok in H. split; [exact H|]. eapply wr_counter_at_eq; eauto.
+  Qed.
+  Lemma save_latest_nonce_succeeds a tok n s : plan E (calls s) = false -> exists s', save_latest_nonce E a tok n s = (Ok tt, s').
+  Proof. apply save_kv_succeeds. Qed.
+
+  (* ---------------- roles ---------------- *)
+  Lemma get_roles_ok a key s r isNew s' : get_roles E a key s = (Ok (r, isNew), s') ->
+    rd E s s' /\ (if isNew then cell s a key = [] /\ r = []
+                  else cell s a key <> [] /\ dec_rol (cdc E) (cell s a key) = Some r).
+  Proof.
+    unfold get_roles. intros H. apply bind_ok in H as (b & s1 & H1 & H2).
+    apply retrieve_ok in H1 as [-> ->]. destruct (cell s a key) as [|b0 br] eqn:Ec.
+    - apply ret_ok in H2 as [H2 ->]. inversion H2; subst. split; [apply rd_refl|auto].
+    - apply bind_ok in H2 as (r1 & s2 & H2 & H3). apply unmarshal_rol_ok in H2 as [Hd Hr].
+      apply ret_ok in H3 as [H3 ->]. inversion H3; subst r1 isNew. split; [exact Hr|]. split; [discriminate|exact Hd].
+  Qed.
+  Lemma get_roles_roles_at a tok s r isNew s' : get_roles E a (RP ++ tok) s = (Ok (r, isNew), s') ->
+    r = roles_at E s a tok /\ rd E s s'.
+  Proof.
+    intros H. apply get_roles_ok in H as [Hr Hcase]. split; [|exact Hr]. unfold roles_at.
+    destruct isNew.
+    - destruct Hcase as [-> ->]. reflexivity.
+    - destruct Hcase as [Hne Hd]. destruct (cell s a (RP ++ tok)); [congruence|]. rewrite Hd. reflexivity.
+  Qed.
+  Lemma get_roles_succeeds a key s : plan E (calls s) = false ->
+    (cell s a key = [] \/ dec_rol (cdc E) (cell s a key) <> None) ->
+    exists r isNew s', get_roles E a key s = (Ok (r, isNew), s').
+  Proof.
+    intros Hp Hd. unfold get_roles. rewrite (bind_eq _ _ _ _ _ (retrieve_eq a key s)).
+    destruct (cell s a key) as [|b0 br].
+    - do 3 eexists. reflexivity.
+    - destruct Hd as [Hd|Hd]; [discriminate|]. destruct (dec_rol (cdc E) (b0 :: br)) as [r|] eqn:Er; [|congruence].
+      destruct (unmarshal_rol_succeeds E _ _ s Hp Er) as (s1 & H1). rewrite (bind_eq _ _ _ _ _ H1).
+      do 3 eexists. reflexivity.
+  Qed.
+  Lemma check_allowed_ok snd a tok role s u s' : check_allowed E snd a tok role s = (Ok u, s') ->
+    snd = true /\ has_role E s a tok role = true /\ rd E s s'.
+  Proof.
+    unfold check_allowed. intros H. apply bind_ok in H as (u1 & s1 & H1 & H2). apply guard_ok in H1 as [Hs ->].
+    apply bind_ok in H2 as ([r isNew] & s1 & H2 & H3). apply get_roles_roles_at in H2 as [-> Hr].
+    apply bind_ok in H3 as (u2 & s2 & H3 & H4). apply guard_ok in H3 as [_ ->]. apply guard_ok in H4 as [Hin ->].
+    auto.
+  Qed.
+  Lemma check_allowed_succeeds snd a tok role s : no_faults E -> snd = true -> has_role E s a tok role = true ->
+    exists s', check_allowed E snd a tok role s = (Ok tt, s').
+  Proof.
+    intros Hnf -> Hh. unfold check_allowed. rewrite (bind_eq _ _ _ _ _ (guard_true _ _ _ eq_refl)).
+    assert (Hd : cell s a (RP ++ tok) <> [] /\ dec_rol (cdc E) (cell s a (RP ++ tok)) <> None).
+    { unfold has_role, roles_at in Hh. destruct (cell s a (RP ++ tok)) as [|b0 br]; [discriminate|].
+      split; [discriminate|]. destruct (dec_rol (cdc E) (b0 :: br)); [discriminate|simpl in Hh; discriminate]. }
+    destruct Hd as [Hne Hd].
+    destruct (get_roles_succeeds a (RP ++ tok) s (Hnf _) (or_intror Hd)) as (r & isNew & s1 & H1).
+    rewrite (bind_eq _ _ _ _ _ H1). cbv beta iota.
+    pose proof (get_roles_roles_at _ _ _ _ _ _ H1) as [-> _]. apply get_roles_ok in H1 as [_ Hcase].
+    destruct isNew; [destruct Hcase; contradiction|].
+    rewrite (bind_eq _ _ _ _ _ (guard_true _ _ _ eq_refl)). exists s1. apply guard_true. exact Hh.
+  Qed.
+  Lemma has_role_In s a tok role : has_role E s a tok role = true <-> In role (roles_at E s a tok).
+  Proof. apply bytes_in_true. Qed.
+  Lemma save_roles_ok a key r s u s' : save_roles E a key r s = (Ok u, s') -> wr E a key (enc_rol (cdc E) r) s s'.
+  Proof.
+    unfold save_roles. intros H. apply bind_ok in H as (b & s1 & H1 & H2).
+    apply marshal_rol_ok in H1 as [-> Hr]. apply save_kv_ok in H2. eapply rd_wr; eauto.
+  Qed.
+  Lemma save_roles_roles_at a tok r s u s' : save_roles E a (RP ++ tok) r s = (Ok u, s') -> roles_at E s' a tok = r.
+  Proof. intros H. apply save_roles_ok in H. eapply wr_roles_at_eq; eauto. Qed.
+  Lemma save_roles_succeeds a key r s : no_faults E -> exists s', save_roles E a key r s = (Ok tt, s').
+  Proof.
+    intros Hnf. unfold save_roles. destruct (marshal_rol_succeeds E r s (Hnf _)) as (s1 & H1).
+    rewrite (bind_eq _ _ _ _ _ H1). apply save_kv_succeeds, Hnf.
+  Qed.
+
+  (* ---------------- check_payable / add_nft_to_destination (Ledger/Transfers.v) ---------------- *)
+  Lemma check_payable_ok verify a s u s' : check_payable E verify a s = (Ok u, s') ->
+    rd E s s' /\ (verify = true -> payable E a = PayYes).
+  Proof.
+    unfold check_payable. destruct verify.
+    - intros H. apply bind_ok in H as (p & s1 & H1 & H2). apply is_payable_ok in H1 as [Hp Hr].
+      apply guard_ok in H2 as [-> ->]. auto.
+    - intros H. apply ret_ok in H as [_ ->]. split; [apply rd_refl|discriminate].
+  Qed.
+  Lemma check_payable_succeeds verify a s : plan E (calls s) = false -> (verify = true -> payable E a = PayYes) ->
+    exists s', check_payable E verify a s = (Ok tt, s').
+  Proof.
+    intros Hp Hv. unfold check_payable. destruct verify; [|eexists; reflexivity].
+    assert (Hne : payable E a <> PayErr) by (rewrite Hv by reflexivity; discriminate).
+    destruct (is_payable_succeeds E a s Hp Hne) as (s1 & H1). rewrite (bind_eq _ _ _ _ _ H1).
+    rewrite Hv by reflexivity. eexists. reflexivity.
+  Qed.
+
+  Lemma add_nft_to_destination_ok dst key t verify rae s t' s' :
+    add_nft_to_destination E dst key t verify rae s = (Ok t', s') ->
+    exists cur v cv,
+      tok_or_default s dst (nft_key key (tok_nonce t)) = Some cur /\ wf_token cur
+      /\ t_value t = Some v /\ t_value cur = Some cv
+      /\ t' = set_value t (Some (v + cv)%Z)
+      /\ (verify = true -> payable E dst = PayYes)
+      /\ (forall cm, t_meta cur = Some cm -> exists m, t_meta t = Some m /\ md_hash cm = md_hash m)
+      /\ (rae = false -> dst <> SC ->
+          frozen_props (t_props cur) = false /\ frozen_props (t_props t) = false
+          /\ paused_at s key = false /\ paused_at s (nft_key key (tok_nonce t)) = false)
+      /\ wr E dst (nft_key key (tok_nonce t))
+            (if (v + cv <=? 0)%Z then [] else enc_tok (cdc E) (set_value t (Some (v + cv)%Z))) s s'.
+  Proof.
+    unfold add_nft_to_destination. intros H. apply bind_ok in H as (u1 & s1 & H1 & H2).
+    apply check_payable_ok in H1 as [Hr1 Hpay].
+    apply bind_ok in H2 as ([cur isNew] & s2 & H2 & H3).
+    apply get_nft_on_destination_ok in H2 as (Hr2 & Hwf & Htod & _).
+    apply bind_ok in H3 as (u2 & s3 & H3 & H4). apply check_froze_and_pause_ok in H3 as [-> Hfp1].
+    apply bind_ok in H4 as (u3 & s3 & H4 & H5).
+    assert (Hs3 : s3 = s2 /\ forall cm, t_meta cur = Some cm -> exists m, t_meta t = Some m /\ md_hash cm = md_hash m).
+    { destruct (t_meta cur) as [cm|].
+      - apply bind_ok in H4 as (m & s4 & H4 & H6). apply meta_of_ok in H4 as [Hm ->].
+        apply guard_ok in H6 as [Hh ->]. split; [reflexivity|]. intros cm' [= <-]. exists m. split; [exact Hm|].
+        apply beqb_true. exact Hh.
+      - apply ret_ok in H4 as [_ ->]. split; [reflexivity|discriminate]. }
+    destruct Hs3 as [-> Hhash]. clear H4.
+    apply bind_ok in H5 as (v & s3 & H5 & H6). apply val_of_ok in H5 as [Hv ->].
+    apply bind_ok in H6 as (cv & s3 & H6 & H7). apply val_of_ok in H6 as [Hcv ->].
+    cbv zeta in H7. apply bind_ok in H7 as (b & s3 & H7 & H8). apply ret_ok in H8 as [-> ->].
+    apply save_nft_ok in H7 as (v' & Hv' & -> & Hw & Hfp2). simpl in Hv'. inversion Hv'; subst v'. clear Hv'.
+    rewrite tok_nonce_set_value in *.
+    assert (Hr : rd E s s2) by (eapply rd_trans; eauto).
+    exists cur, v, cv. rewrite <- (rd_tod _ _ _ _ Hr1). split; [exact Htod|]. split; [exact Hwf|].
+    split; [exact Hv|]. split; [exact Hcv|]. split; [reflexivity|]. split; [exact Hpay|]. split; [exact Hhash|].
+    split.
+    - intros h1 h2. destruct (Hfp1 h1 h2) as [F1 P1]. destruct (Hfp2 h1 h2) as (F2 & P2 & P3).
+      rewrite <- !(rd_paused_at _ _ _ _ Hr). auto.
+    - eapply rd_wr; eauto.
+  Qed.
+  Lemma add_nft_to_destination_succeeds dst key t verify rae s cur v cv :
+    no_faults E ->
+    (verify = true -> payable E dst = PayYes) ->
+    tok_or_default s dst (nft_key key (tok_nonce t)) = Some cur ->
+    t_value t = Some v -> t_value cur = Some cv ->
+    (forall cm, t_meta cur = Some cm -> exists m, t_meta t = Some m /\ md_hash cm = md_hash m) ->
+    (rae = false -> dst <> SC ->
+       frozen_props (t_props cur) = false /\ frozen_props (t_props t) = false
+       /\ paused_at s key = false /\ paused_at s (nft_key key (tok_nonce t)) = false) ->
+    exists s', add_nft_to_destination E dst key t verify rae s = (Ok (set_value t (Some (v + cv)%Z)), s').
+  Proof.
+    intros Hnf Hpay Htod Hv Hcv Hhash Hfp. unfold add_nft_to_destination.
+    destruct (check_payable_succeeds verify dst s (Hnf _) Hpay) as (s1 & H1).
+    rewrite (bind_eq _ _ _ _ _ H1). apply check_payable_ok in H1 as [Hr1 _].
+    rewrite <- (rd_tod _ _ _ _ Hr1) in Htod.
+    destruct (get_nft_on_destination_succeeds dst key (tok_nonce t) s1 cur (Hnf _) Htod) as (s2 & H2).
+    rewrite (bind_eq _ _ _ _ _ H2). cbv beta iota.
+    apply get_nft_on_destination_ok in H2 as (Hr2 & _).
+    assert (Hr : rd E s s2) by (eapply rd_trans; eauto).
+    assert (Hfp' : rae = false -> dst <> SC ->
+       frozen_props (t_props cur) = false /\ frozen_props (t_props t) = false
+       /\ paused_at s2 key = false /\ paused_at s2 (nft_key key (tok_nonce t)) = false).
+    { intros h1 h2. rewrite !(rd_paused_at _ _ _ _ Hr). auto. }
+    rewrite (bind_eq _ _ _ _ _ (check_froze_and_pause_succeeds dst key cur rae s2
+      (fun h1 h2 => conj (proj1 (Hfp' h1 h2)) (proj1 (proj2 (proj2 (Hfp' h1 h2))))))).
+    assert (Hm : (match t_meta cur with
+                  | Some cm => m <- meta_of t ;; guard (beqb (md_hash cm) (md_hash m)) EWrongNFTOnDestination
+                  | None => ret tt
+                  end) s2 = (Ok tt, s2)).
+    { destruct (t_meta cur) as [cm|]; [|reflexivity].
+      destruct (Hhash cm eq_refl) as (m & Hm & Hh). rewrite (bind_eq _ _ _ _ _ (meta_of_succeeds _ _ s2 Hm)).
+      apply guard_true. apply beqb_true. exact Hh. }
+    rewrite (bind_eq _ _ _ _ _ Hm).
+    rewrite (bind_eq _ _ _ _ _ (val_of_succeeds _ _ s2 Hv)). rewrite (bind_eq _ _ _ _ _ (val_of_succeeds _ _ s2 Hcv)).
+    cbv zeta.
+    destruct (save_nft_succeeds dst key (set_value t (Some (v + cv)%Z)) rae s2 (v + cv)%Z Hnf eq_refl) as (b & s3 & H3).
+    { intros h1 h2. rewrite tok_nonce_set_value. destruct (Hfp' h1 h2) as (_ & ? & ? & ?). auto. }
+    rewrite (bind_eq _ _ _ _ _ H3). eexists. reflexivity.
+  Qed.
+  Lemma add_nft_to_destination_balance dst key t verify rae s t' s' : wf_token t ->
+    add_nft_to_destination E dst key t verify rae s = (Ok t', s') ->
+    balance E s' dst (nft_key key (tok_nonce t)) = Z.max 0 (val_or_0 t + balance E s dst (nft_key key (tok_nonce t)))
+    /\ val_or_0 t' = (val_or_0 t + balance E s dst (nft_key key (tok_nonce t)))%Z
+    /\ unchanged_except (fun a' k' => a' = dst /\ k' = nft_key key (tok_nonce t)) (fun _ => False) s s'
+    /\ nofault E s s'.
+  Proof.
+    intros Hwf H. apply add_nft_to_destination_ok in H as (cur & v & cv & Htod & _ & Hv & Hcv & -> & _ & _ & _ & Hw).
+    assert (Hb : balance E s dst (nft_key key (tok_nonce t)) = cv)
+      by (rewrite (balance_tod _ _ _ _ Htod); unfold val_or_0; rewrite Hcv; reflexivity).
+    assert (Hvt : val_or_0 t = v) by (unfold val_or_0; rewrite Hv; reflexivity).
+    rewrite Hb, Hvt.
+    split; [|split; [reflexivity|split; [eapply wr_unchanged; eauto|eapply wr_nofault; eauto]]].
+    destruct (v + cv <=? 0)%Z eqn:Ev.
+    - rewrite (wr_balance_nil _ _ _ _ _ Hw). lia.
+    - rewrite (wr_balance_enc _ _ _ _ _ (wf_set_value _ _ Hwf) Hw). unfold val_or_0. simpl. lia.
+  Qed.
 End Helpers.
+
+(* ================================================================== *)
+(* 4. Inversion tactic                                                 *)
+(* ================================================================== *)
+(* [einv_step] inverts ONE hypothesis of the form [helper ... s = (Ok x, s')] (helpers first, then
+   primitives, then the monad combinators); [einv] repeats.  The helpers that decode need a hypothesis
+   [codec_ok (cdc E)] in the context.  Facts are introduced with fresh names: select them by shape.
+   [upd_acct] and [alloc] are left to the user (upd_acct_ok / upd_acct_acct / alloc_ok). *)
+Ltac einv_step :=
+  match goal with
+  | H : get_esdt_data ?E _ _ _ = (Ok _, _), Hc : codec_ok (cdc ?E) |- _ =>
+      apply (get_esdt_data_ok E Hc) in H; destruct H as (? & ? & ?)
+  | H : check_froze_and_pause _ _ _ _ _ = (Ok _, _) |- _ =>
+      apply check_froze_and_pause_ok in H; destruct H as [? ?]; subst
+  | H : is_paused _ _ = (Ok _, _) |- _ => apply is_paused_ok in H; destruct H as [? ?]; subst
+  | H : save_esdt_data _ _ _ _ _ = (Ok _, _) |- _ =>
+      apply save_esdt_data_ok in H; destruct H as (? & ? & ?)
+  | H : add_to_esdt_balance ?E _ _ _ _ _ = (Ok _, _), Hc : codec_ok (cdc ?E) |- _ =>
+      apply (add_to_esdt_balance_inv E Hc) in H; destruct H as (? & ? & ? & ? & ? & ? & ? & ? & ?)
+  | H : get_nft_on_destination _ _ _ _ _ = (Ok ?x, _) |- _ => is_var x; destruct x as [? ?]
+  | H : get_nft_on_destination ?E _ _ _ _ = (Ok (_, _), _), Hc : codec_ok (cdc ?E) |- _ =>
+      apply (get_nft_on_destination_ok E Hc) in H; destruct H as (? & ? & ? & ?)
+  | H : get_nft_on_sender ?E _ _ _ _ = (Ok _, _), Hc : codec_ok (cdc ?E) |- _ =>
+      apply (get_nft_on_sender_ok E Hc) in H; destruct H as (? & ? & ? & ? & ?)
+  | H : save_nft _ _ _ _ _ _ = (Ok _, _) |- _ =>
+      apply save_nft_ok in H; destruct H as (? & ? & ? & ? & ?)
+  | H : get_latest_nonce _ _ _ = (Ok _, _) |- _ => apply get_latest_nonce_ok in H; destruct H as [? ?]; subst
+  | H : save_latest_nonce _ _ _ _ _ = (Ok _, _) |- _ => apply save_latest_nonce_ok in H; destruct H as [? ?]
+  | H : get_roles _ _ _ _ = (Ok ?x, _) |- _ => is_var x; destruct x as [? ?]
+  | H : get_roles _ _ (RP ++ _) _ = (Ok (_, _), _) |- _ => apply get_roles_roles_at in H; destruct H as [? ?]
+  | H : get_roles _ _ _ _ = (Ok (_, _), _) |- _ => apply get_roles_ok in H; destruct H as [? ?]
+  | H : check_allowed _ _ _ _ _ _ = (Ok _, _) |- _ => apply check_allowed_ok in H; destruct H as (? & ? & ?)
+  | H : save_roles _ _ _ _ _ = (Ok _, _) |- _ => apply save_roles_ok in H
+  | H : check_payable _ _ _ _ = (Ok _, _) |- _ => apply check_payable_ok in H; destruct H as [? ?]
+  | H : add_nft_to_destination ?E _ _ _ _ _ _ = (Ok _, _), Hc : codec_ok (cdc ?E) |- _ =>
+      apply (add_nft_to_destination_ok E Hc) in H;
+      destruct H as (? & ? & ? & ? & ? & ? & ? & ? & ? & ? & ? & ?)
+  | _ => pinv_step
+  end.
+Ltac einv := repeat einv_step.
+
+(* smoke tests of the tactic *)
+Example einv_test1 E (Hc : codec_ok (cdc E)) a key tok s o s' :
+  (check_allowed E true a tok C.ESDTRoleLocalMint ;;;
+   add_to_esdt_balance E a key 5%Z false ;;;
+   t <- get_esdt_data E a key ;; v <- val_of t ;; ret v) s = (Ok o, s') ->
+  has_role E s a tok C.ESDTRoleLocalMint = true /\ nofault E s s'.
+Proof.
+  intros H. einv. split; [assumption|].
+  repeat match goal with
+         | H : rd _ _ _ |- _ => apply rd_nofault in H
+         | H : wr _ _ _ _ _ _ |- _ => apply wr_nofault in H
+         end.
+  eauto using nofault_trans.
+Qed.
+Example einv_test2 E (Hc : codec_ok (cdc E)) a key nonce s o s' :
+  (t <- get_nft_on_sender E a key nonce ;; '(c, isNew) <- get_nft_on_destination E a key nonce ;;
+   b <- save_nft E a key t false ;; n <- get_latest_nonce a key ;; '(r, _) <- get_roles E a (RP ++ key) ;;
+   t' <- add_nft_to_destination E a key t true false ;; ret n) s = (Ok o, s') ->
+  payable E a = PayYes.
+Proof. intros H. einv. auto. Qed.
+
+(* ================================================================== *)
+(* 5. Frames: what [unchanged_except] says about the observables; sums over accounts *)
+(* ================================================================== *)
+Section Frames.
+  Variable E : env.
+  Variables (F : bytes -> bytes -> Prop) (G : bytes -> Prop).
+  Variables s s' : mstate.
+  Hypothesis Hue : unchanged_except F G s s'.
+  Lemma ue_cell a k : ~ F a k -> cell s' a k = cell s a k.
+  Proof. destruct Hue as [H _]. apply H. Qed.
+  Lemma ue_fields a : ~ G a -> acct_fields_eq (acct s' a) (acct s a).
+  Proof. destruct Hue as [_ H]. apply H. Qed.
+  Lemma ue_tok_at a k : ~ F a k -> tok_at E s' a k = tok_at E s a k.
+  Proof. intros H. unfold tok_at. rewrite (ue_cell _ _ H). reflexivity. Qed.
+  Lemma ue_tod a k : ~ F a k -> tok_or_default E s' a k = tok_or_default E s a k.
+  Proof. intros H. unfold tok_or_default. rewrite (ue_cell _ _ H). reflexivity. Qed.
+  Lemma ue_balance a k : ~ F a k -> balance E s' a k = balance E s a k.
+  Proof. intros H. unfold balance. rewrite (ue_cell _ _ H). reflexivity. Qed.
+  Lemma ue_frozen_at a k : ~ F a k -> frozen_at E s' a k = frozen_at E s a k.
+  Proof. intros H. unfold frozen_at. rewrite (ue_tok_at _ _ H). reflexivity. Qed.
+  Lemma ue_paused_at k : ~ F SYS k -> paused_at s' k = paused_at s k.
+  Proof. intros H. unfold paused_at. rewrite (ue_cell _ _ H). reflexivity. Qed.
+  Lemma ue_roles_at a tok : ~ F a (RP ++ tok) -> roles_at E s' a tok = roles_at E s a tok.
+  Proof. intros H. unfold roles_at. rewrite (ue_cell _ _ H). reflexivity. Qed.
+  Lemma ue_has_role a tok r : ~ F a (RP ++ tok) -> has_role E s' a tok r = has_role E s a tok r.
+  Proof. intros H. unfold has_role. rewrite (ue_roles_at _ _ H). reflexivity. Qed.
+  Lemma ue_counter_at a tok : ~ F a (NP ++ tok) -> counter_at s' a tok = counter_at s a tok.
+  Proof. intros H. unfold counter_at. rewrite (ue_cell _ _ H). reflexivity. Qed.
+End Frames.
+
+Lemma same_world_unchanged F G s s' : same_world s s' -> unchanged_except F G s s'.
+Proof.
+  intros H. split.
+  - intros a k _. unfold cell. destruct (H a) as [Hs _]. symmetry. apply Hs.
+  - intros a _. destruct (H a) as [_ Hf]. apply acct_fields_eq_sym. exact Hf.
+Qed.
+Lemma unchanged_nothing_same_world s s' :
+  unchanged_except (fun _ _ => False) (fun _ => False) s s' -> same_world s s'.
+Proof.
+  intros [H1 H2] a. split.
+  - intros k. symmetry. apply (H1 a k). tauto.
+  - apply acct_fields_eq_sym. apply H2. tauto.
+Qed.
+
+(* sums of a per-account quantity over the account list (conservation proofs) *)
+Section Sums.
+  Variable E : env.
+  Variable f : account -> Z.
+  Hypothesis f_empty : f empty_account = 0%Z.
+  Lemma wr_asum a k v s s' : wr E a k v s s' -> NoDup (map fst (accts s)) ->
+    asum f (accts s') = (asum f (accts s) - f (acct s a) + f (acct s' a))%Z.
+  Proof.
+    intros H Hnd. rewrite (wr_acct_eq _ _ _ _ _ _ H). rewrite (wr_accts _ _ _ _ _ _ H).
+    rewrite (asum_aput account empty_account f f_empty _ _ _ Hnd). reflexivity.
+  Qed.
+  Lemma upd_acct_asum a g s u s' : upd_acct a g s = (Ok u, s') -> NoDup (map fst (accts s)) ->
+    asum f (accts s') = (asum f (accts s) - f (acct s a) + f (g (acct s a)))%Z.
+  Proof.
+    intros H Hnd. apply upd_acct_ok in H as (H & _). rewrite H.
+    rewrite (asum_aput account empty_account f f_empty _ _ _ Hnd). reflexivity.
+  Qed.
+  Lemma accts_eq_asum s s' : accts s' = accts s -> asum f (accts s') = asum f (accts s).
+  Proof. intros ->. reflexivity. Qed.
+End Sums.
+
+(* ================================================================== *)
+(* 6. Monotonicity of the dependency-call counter, for every result (Ok, Err or Panic) *)
+(* ================================================================== *)
+Definition mono {A} (m : MT A) : Prop := forall s, calls s <= calls (snd (m s)).
+Lemma mono_ok {A} (m : MT A) s r s' : mono m -> m s = (r, s') -> calls s <= calls s'.
+Proof. intros H Hm. specialize (H s). rewrite Hm in H. exact H. Qed.
+Lemma mono_same {A} (m : MT A) : (forall s, calls (snd (m s)) = calls s) -> mono m.
+Proof. intros H s. rewrite H. lia. Qed.
+Lemma mono_ret {A} (a : A) : mono (ret a : MT A). Proof. intros s. simpl. lia. Qed.
+Lemma mono_fail {A} e : mono (fail e : MT A). Proof. intros s. simpl. lia. Qed.
+Lemma mono_panic {A} : mono (panic : MT A). Proof. intros s. simpl. lia. Qed.
+Lemma mono_guard b e : mono (guard b e : MT unit). Proof. destruct b; [apply mono_ret|apply mono_fail]. Qed.
+Lemma mono_lift_opt {A} (o : option A) e : mono (lift_opt o e : MT A).
+Proof. destruct o; [apply mono_ret|apply mono_fail]. Qed.
+Lemma mono_opt_or_panic {A} (o : option A) : mono (opt_or_panic o : MT A).
+Proof. destruct o; [apply mono_ret|apply mono_panic]. Qed.
+Lemma mono_bind {A B} (m : MT A) (f : A -> MT B) : mono m -> (forall a, mono (f a)) -> mono (bind m f).
+Proof.
+  intros Hm Hf s. unfold bind. specialize (Hm s). destruct (m s) as [[a|e|] s1]; simpl in *; [|lia|lia].
+  specialize (Hf a s1). lia.
+Qed.
+Lemma mono_if {A} (b : bool) (m1 m2 : MT A) : mono m1 -> mono m2 -> mono (if b then m1 else m2).
+Proof. destruct b; auto. Qed.
+Lemma mono_dep E : mono (dep E).
+Proof. intros s. unfold dep. destruct (plan E (calls s)); simpl; lia. Qed.
+Lemma mono_retrieve a k : mono (retrieve a k). Proof. intros s. simpl. lia. Qed.
+Lemma mono_write_kv a k v : mono (write_kv a k v). Proof. intros s. simpl. lia. Qed.
+Lemma mono_upd_acct a f : mono (upd_acct a f). Proof. intros s. simpl. lia. Qed.
+Lemma mono_get_acct a : mono (get_acct a). Proof. intros s. simpl. lia. Qed.
+Lemma mono_alloc n : mono (alloc n).
+Proof. intros s. unfold alloc. destruct (1099511627776 <? n)%N; simpl; lia. Qed.
+Lemma mono_arg args i : mono (arg args i).
+Proof. unfold arg. destruct (i <? alen args)%N; [apply mono_opt_or_panic|apply mono_panic]. Qed.
+Lemma mono_args_from args i : mono (args_from args i).
+Proof. unfold args_from. destruct (i <=? alen args)%N; [apply mono_ret|apply mono_panic]. Qed.
+Lemma mono_val_of t : mono (val_of t). Proof. apply mono_opt_or_panic. Qed.
+Lemma mono_meta_of t : mono (meta_of t). Proof. apply mono_opt_or_panic. Qed.
+
+Create HintDb mono discriminated.
+#[export] Hint Resolve mono_ret mono_fail mono_panic mono_guard mono_lift_opt mono_opt_or_panic
+  mono_dep mono_retrieve mono_write_kv mono_upd_acct mono_get_acct mono_alloc mono_arg mono_args_from
+  mono_val_of mono_meta_of : mono.
+(* [mono_tac] proves [mono (m)] for a monadic term built from binds, guards, ifs, matches and
+   helpers whose [mono_*] lemma is in the hint database [mono]; unfold your function first. *)
+Ltac mono_step :=
+  first
+    [ solve [auto with mono]
+    | apply mono_bind; [|intros]
+    | match goal with
+      | |- mono (if ?b then _ else _) => destruct b
+      | |- mono (match ?x with _ => _ end) => destruct x
+      | |- mono (let _ := _ in _) => cbv zeta
+      end ].
+Ltac mono_tac := repeat mono_step.
+
+Lemma mono_save_kv E a k v : mono (save_kv E a k v). Proof. unfold save_kv. mono_tac. Qed.
+Lemma mono_load_account E a : mono (load_account E a). Proof. apply mono_dep. Qed.
+Lemma mono_save_account E a : mono (save_account E a). Proof. apply mono_dep. Qed.
+Lemma mono_marshal_tok E t : mono (marshal_tok E t). Proof. unfold marshal_tok. mono_tac. Qed.
+Lemma mono_unmarshal_tok E b : mono (unmarshal_tok E b). Proof. unfold unmarshal_tok. mono_tac. Qed.
+Lemma mono_marshal_rol E r : mono (marshal_rol E r). Proof. unfold marshal_rol. mono_tac. Qed.
+Lemma mono_unmarshal_rol E b : mono (unmarshal_rol E b). Proof. unfold unmarshal_rol. mono_tac. Qed.
+Lemma mono_is_payable E a : mono (is_payable E a). Proof. unfold is_payable. mono_tac. Qed.
+#[export] Hint Resolve mono_save_kv mono_load_account mono_save_account mono_marshal_tok mono_unmarshal_tok
+  mono_marshal_rol mono_unmarshal_rol mono_is_payable : mono.
+Lemma mono_check_basic i : mono (check_basic i). Proof. unfold check_basic. mono_tac. Qed.
+Lemma mono_get_esdt_data E a k : mono (get_esdt_data E a k). Proof. unfold get_esdt_data. mono_tac. Qed.
+Lemma mono_is_paused k : mono (is_paused k). Proof. unfold is_paused. mono_tac. Qed.
+#[export] Hint Resolve mono_check_basic mono_get_esdt_data mono_is_paused : mono.
+Lemma mono_check_froze_and_pause a k t rae : mono (check_froze_and_pause a k t rae).
+Proof. unfold check_froze_and_pause. mono_tac. Qed.
+Lemma mono_save_esdt_data E a t k : mono (save_esdt_data E a t k). Proof. unfold save_esdt_data. mono_tac. Qed.
+#[export] Hint Resolve mono_check_froze_and_pause mono_save_esdt_data : mono.
+Lemma mono_add_to_esdt_balance E a k d rae : mono (add_to_esdt_balance E a k d rae).
+Proof. unfold add_to_esdt_balance. mono_tac. Qed.
+Lemma mono_get_nft_on_destination E a k n : mono (get_nft_on_destination E a k n).
+Proof. unfold get_nft_on_destination. mono_tac. Qed.
+#[export] Hint Resolve mono_add_to_esdt_balance mono_get_nft_on_destination : mono.
+Lemma mono_get_nft_on_sender E a k n : mono (get_nft_on_sender E a k n).
+Proof. unfold get_nft_on_sender. mono_tac. Qed.
+Lemma mono_save_nft E a k t rae : mono (save_nft E a k t rae). Proof. unfold save_nft. mono_tac. Qed.
+Lemma mono_get_latest_nonce a tok : mono (get_latest_nonce a tok). Proof. unfold get_latest_nonce. mono_tac. Qed.
+Lemma mono_save_latest_nonce E a tok n : mono (save_latest_nonce E a tok n). Proof. unfold save_latest_nonce. mono_tac. Qed.
+Lemma mono_get_roles E a k : mono (get_roles E a k). Proof. unfold get_roles. mono_tac. Qed.
+#[export] Hint Resolve mono_get_nft_on_sender mono_save_nft mono_get_latest_nonce mono_save_latest_nonce mono_get_roles : mono.
+Lemma mono_check_allowed E snd a tok role : mono (check_allowed E snd a tok role).
+Proof. unfold check_allowed. mono_tac. Qed.
+Lemma mono_save_roles E a k r : mono (save_roles E a k r). Proof. unfold save_roles. mono_tac. Qed.
+Lemma mono_check_payable E v a : mono (check_payable E v a). Proof. unfold check_payable. mono_tac. Qed.
+#[export] Hint Resolve mono_check_allowed mono_save_roles mono_check_payable : mono.
+Lemma mono_add_nft_to_destination E dst k t v rae : mono (add_nft_to_destination E dst k t v rae).
+Proof. unfold add_nft_to_destination. mono_tac. Qed.
+#[export] Hint Resolve mono_add_nft_to_destination : mono.
+
+(* ================================================================== *)
+(* 7. Panic freedom (C11): [panicfree m] = m never panics; [nopanic m s] = m does not panic from s *)
+(* ================================================================== *)
+Definition nopanic {A} (m : MT A) (s : mstate) : Prop := fst (m s) <> Panic.
+Definition panicfree {A} (m : MT A) : Prop := forall s, nopanic m s.
+Lemma nopanic_is_panic {A} (m : MT A) s : nopanic m s <-> ~ is_panic (m s).
+Proof. reflexivity. Qed.
+Lemma nopanic_bind {A B} (m : MT A) (f : A -> MT B) s :
+  nopanic m s -> (forall a s1, m s = (Ok a, s1) -> nopanic (f a) s1) -> nopanic (bind m f) s.
+Proof.
+  unfold nopanic, bind. intros Hm Hf. destruct (m s) as [[a|e|] s1] eqn:Em; simpl in *.
+  - apply Hf. reflexivity.
+  - discriminate.
+  - congruence.
+Qed.
+Lemma panicfree_nopanic {A} (m : MT A) s : panicfree m -> nopanic m s. Proof. intros H. apply H. Qed.
+Lemma panicfree_ret {A} (a : A) : panicfree (ret a : MT A). Proof. intros s. unfold nopanic. simpl. discriminate. Qed.
+Lemma panicfree_fail {A} e : panicfree (fail e : MT A). Proof. intros s. unfold nopanic. simpl. discriminate. Qed.
+Lemma panicfree_guard b e : panicfree (guard b e : MT unit). Proof. destruct b; [apply panicfree_ret|apply panicfree_fail]. Qed.
+Lemma panicfree_lift_opt {A} (o : option A) e : panicfree (lift_opt o e : MT A).
+Proof. destruct o; [apply panicfree_ret|apply panicfree_fail]. Qed.
+Lemma panicfree_bind {A B} (m : MT A) (f : A -> MT B) : panicfree m -> (forall a, panicfree (f a)) -> panicfree (bind m f).
+Proof. intros Hm Hf s. apply nopanic_bind; [apply Hm|]. intros a s1 _. apply Hf. Qed.
+Lemma panicfree_dep E : panicfree (dep E).
+Proof. intros s. unfold nopanic, dep. destruct (plan E (calls s)); simpl; discriminate. Qed.
+Lemma panicfree_retrieve a k : panicfree (retrieve a k). Proof. intros s. unfold nopanic. simpl. discriminate. Qed.
+Lemma panicfree_write_kv a k v : panicfree (write_kv a k v). Proof. intros s. unfold nopanic. simpl. discriminate. Qed.
+Lemma panicfree_upd_acct a f : panicfree (upd_acct a f). Proof. intros s. unfold nopanic. simpl. discriminate. Qed.
+Lemma panicfree_get_acct a : panicfree (get_acct a). Proof. intros s. unfold nopanic. simpl. discriminate. Qed.
+Lemma nopanic_alloc n s : (n <= 1099511627776)%N -> nopanic (alloc n) s.
+Proof. intros H. unfold nopanic, alloc. destruct (1099511627776 <? n)%N eqn:E0; [lia|]. simpl. discriminate. Qed.
+Lemma nopanic_arg args i s : (i < alen args)%N -> nopanic (arg args i) s.
+Proof. intros H. unfold nopanic. destruct (arg_succeeds args i s H) as (x & _ & ->). simpl. discriminate. Qed.
+Lemma nopanic_args_from args i s : (i <= alen args)%N -> nopanic (args_from args i) s.
+Proof. intros H. unfold nopanic. rewrite (args_from_succeeds args i s H). simpl. discriminate. Qed.
+Lemma nopanic_val_of t s : t_value t <> None -> nopanic (val_of t) s.
+Proof. intros H. unfold nopanic, val_of. destruct (t_value t); [simpl; discriminate|congruence]. Qed.
+Lemma nopanic_meta_of t s : t_meta t <> None -> nopanic (meta_of t) s.
+Proof. intros H. unfold nopanic, meta_of. destruct (t_meta t); [simpl; discriminate|congruence]. Qed.
+
+Create HintDb panicfree discriminated.
+#[export] Hint Resolve panicfree_ret panicfree_fail panicfree_guard panicfree_lift_opt panicfree_dep panicfree_retrieve panicfree_write_kv
+  panicfree_upd_acct panicfree_get_acct : panicfree.
+Ltac panicfree_step :=
+  first
+    [ solve [auto with panicfree]
+    | apply panicfree_bind; [|intros]
+    | match goal with
+      | |- panicfree (if ?b then _ else _) => destruct b
+      | |- panicfree (match ?x with _ => _ end) => destruct x
+      | |- panicfree (let _ := _ in _) => cbv zeta
+      end ].
+Ltac panicfree_tac := repeat panicfree_step.
+
+Lemma panicfree_save_kv E a k v : panicfree (save_kv E a k v). Proof. unfold save_kv. panicfree_tac. Qed.
+Lemma panicfree_load_account E a : panicfree (load_account E a). Proof. apply panicfree_dep. Qed.
+Lemma panicfree_save_account E a : panicfree (save_account E a). Proof. apply panicfree_dep. Qed.
+Lemma panicfree_marshal_tok E t : panicfree (marshal_tok E t). Proof. unfold marshal_tok. panicfree_tac. Qed.
+Lemma panicfree_unmarshal_tok E b : panicfree (unmarshal_tok E b). Proof. unfold unmarshal_tok. panicfree_tac. Qed.
+Lemma panicfree_marshal_rol E r : panicfree (marshal_rol E r). Proof. unfold marshal_rol. panicfree_tac. Qed.
+Lemma panicfree_unmarshal_rol E b : panicfree (unmarshal_rol E b). Proof. unfold unmarshal_rol. panicfree_tac. Qed.
+Lemma panicfree_is_payable E a : panicfree (is_payable E a). Proof. unfold is_payable. panicfree_tac. Qed.
+#[export] Hint Resolve panicfree_save_kv panicfree_load_account panicfree_save_account panicfree_marshal_tok panicfree_unmarshal_tok
+  panicfree_marshal_rol panicfree_unmarshal_rol panicfree_is_payable : panicfree.
+Lemma panicfree_check_basic i : panicfree (check_basic i). Proof. unfold check_basic. panicfree_tac. Qed.
+Lemma panicfree_get_esdt_data E a k : panicfree (get_esdt_data E a k). Proof. unfold get_esdt_data. panicfree_tac. Qed.
+Lemma panicfree_is_paused k : panicfree (is_paused k). Proof. unfold is_paused. panicfree_tac. Qed.
+#[export] Hint Resolve panicfree_check_basic panicfree_get_esdt_data panicfree_is_paused : panicfree.
+Lemma panicfree_check_froze_and_pause a k t rae : panicfree (check_froze_and_pause a k t rae).
+Proof. unfold check_froze_and_pause. panicfree_tac. Qed.
+Lemma panicfree_get_nft_on_destination E a k n : panicfree (get_nft_on_destination E a k n).
+Proof. unfold get_nft_on_destination. panicfree_tac. Qed.
+#[export] Hint Resolve panicfree_check_froze_and_pause panicfree_get_nft_on_destination : panicfree.
+Lemma panicfree_get_nft_on_sender E a k n : panicfree (get_nft_on_sender E a k n).
+Proof. unfold get_nft_on_sender. panicfree_tac. Qed.
+Lemma panicfree_get_latest_nonce a tok : panicfree (get_latest_nonce a tok). Proof. unfold get_latest_nonce. panicfree_tac. Qed.
+Lemma panicfree_save_latest_nonce E a tok n : panicfree (save_latest_nonce E a tok n). Proof. unfold save_latest_nonce. panicfree_tac. Qed.
+Lemma panicfree_get_roles E a k : panicfree (get_roles E a k). Proof. unfold get_roles. panicfree_tac. Qed.
+#[export] Hint Resolve panicfree_get_nft_on_sender panicfree_get_latest_nonce panicfree_save_latest_nonce panicfree_get_roles : panicfree.
+Lemma panicfree_check_allowed E snd a tok role : panicfree (check_allowed E snd a tok role).
+Proof. unfold check_allowed. panicfree_tac. Qed.
+Lemma panicfree_save_roles E a k r : panicfree (save_roles E a k r). Proof. unfold save_roles. panicfree_tac. Qed.
+Lemma panicfree_check_payable E v a : panicfree (check_payable E v a). Proof. unfold check_payable. panicfree_tac. Qed.
+#[export] Hint Resolve panicfree_check_allowed panicfree_save_roles panicfree_check_payable : panicfree.
+
+Section NoPanic.
+  Variable E : env.
+  Hypothesis Hc : codec_ok (cdc E).
+  (* the helpers that dereference Value / TokenMetaData *)
+  Lemma nopanic_save_esdt_data a t k s : t_value t <> None -> nopanic (save_esdt_data E a t k) s.
+  Proof.
+    intros Hv. unfold save_esdt_data. apply nopanic_bind; [apply nopanic_val_of; exact Hv|].
+    intros v s1 _. apply panicfree_nopanic. panicfree_tac.
+  Qed.
+  Lemma nopanic_save_nft a k t rae s : t_value t <> None -> nopanic (save_nft E a k t rae) s.
+  Proof.
+    intros Hv. unfold save_nft. apply nopanic_bind; [apply panicfree_check_froze_and_pause|]. intros u1 s1 _. cbv zeta.
+    apply nopanic_bind; [apply panicfree_check_froze_and_pause|]. intros u2 s2 _.
+    apply nopanic_bind; [apply nopanic_val_of; exact Hv|]. intros v s3 _. apply panicfree_nopanic. panicfree_tac.
+  Qed.
+  Lemma nopanic_add_to_esdt_balance a key delta rae s :
+    (forall t, tok_at E s a key = Some t -> t_value t <> None) ->
+    nopanic (add_to_esdt_balance E a key delta rae) s.
+  Proof.
+    intros Hv. unfold add_to_esdt_balance. apply nopanic_bind; [apply panicfree_get_esdt_data|].
+    intros t s1 H1. apply (get_esdt_data_ok E Hc) in H1 as (_ & Ht & _).
+    assert (Hvt : t_value t <> None).
+    { destruct (tod_cases _ _ _ _ _ Ht) as [(_ & -> & _)|(_ & Hta)]; [discriminate|apply Hv; exact Hta]. }
+    apply nopanic_bind; [apply panicfree_guard|]. intros u1 s2 _.
+    apply nopanic_bind; [apply panicfree_check_froze_and_pause|]. intros u2 s3 _.
+    apply nopanic_bind; [apply nopanic_val_of; exact Hvt|]. intros v s4 _. cbv zeta.
+    apply nopanic_bind; [apply panicfree_guard|]. intros u3 s5 _.
+    apply nopanic_save_esdt_data. discriminate.
+  Qed.
+  Lemma nopanic_add_nft_to_destination dst key t verify rae s :
+    t_value t <> None ->
+    (forall c, tok_at E s dst (nft_key key (tok_nonce t)) = Some c ->
+               t_value c <> None /\ (t_meta c <> None -> t_meta t <> None)) ->
+    nopanic (add_nft_to_destination E dst key t verify rae) s.
+  Proof.
+    intros Hv Hcur. unfold add_nft_to_destination. apply nopanic_bind; [apply panicfree_check_payable|].
+    intros u1 s1 H1. apply check_payable_ok in H1 as [Hr1 _].
+    apply nopanic_bind; [apply panicfree_get_nft_on_destination|]. intros [cur isNew] s2 H2.
+    apply (get_nft_on_destination_ok E Hc) in H2 as (_ & _ & Htod & _).
+    rewrite (rd_tod _ _ _ _ _ Hr1) in Htod.
+    assert (Hc' : t_value cur <> None /\ (t_meta cur <> None -> t_meta t <> None)).
+    { destruct (tod_cases _ _ _ _ _ Htod) as [(_ & -> & _)|(_ & Hta)]; [|apply Hcur; exact Hta].
+      split; [discriminate|]. intros H. exfalso. apply H. reflexivity. }
+    destruct Hc' as [Hcv Hcm].
+    apply nopanic_bind; [apply panicfree_check_froze_and_pause|]. intros u2 s3 _.
+    apply nopanic_bind.
+    { destruct (t_meta cur) as [cm|]; [|apply panicfree_ret].
+      apply nopanic_bind; [apply nopanic_meta_of, Hcm; discriminate|]. intros m s4 _. apply panicfree_guard. }
+    intros u3 s4 _. apply nopanic_bind; [apply nopanic_val_of; exact Hv|]. intros v s5 _.
+    apply nopanic_bind; [apply nopanic_val_of; exact Hcv|]. intros cv s6 _. cbv zeta.
+    apply nopanic_bind; [apply nopanic_save_nft; discriminate|]. intros b s7 _. apply panicfree_ret.
+  Qed.
+End NoPanic.
+
+Print Assumptions add_to_esdt_balance_ok.
+Print Assumptions add_to_esdt_balance_succeeds.
+Print Assumptions save_nft_ok.
+Print Assumptions add_nft_to_destination_ok.
+Print Assumptions check_allowed_ok.
+Print Assumptions save_roles_roles_at.
+Print Assumptions key_allowed_protected.
+Print Assumptions mono_add_nft_to_destination.
+Print Assumptions nopanic_add_nft_to_destination.
